@@ -9,6 +9,7 @@ budgets because they are proved for `page` with arbitrary limits and increments.
 -/
 import GoNfsd.Lemmas.DirData
 import GoNfsd.Lemmas.Enumerate
+import GoNfsd.Gen.Skeleton
 
 namespace GoNfsd.Props.C13
 open GoNfsd.Model.Fs GoNfsd.Gen.Consts
@@ -346,5 +347,19 @@ theorem enumeration_exact_on_directory_blocks (ops : List DirOp) (ha : DirAllowe
   rw [h0] at h2
   rw [h2]
   exact (enumeration_exact lim1 lim2 inc1 inc2 n1 n2 (ops.foldl slotApply [])).1
+
+/-! ### the directory a listing reads is the one its lock protects -/
+
+/-- A listing (and the update it is ordered with) works on the cached directory object — size,
+    name cache — that `LockInode` fetches from the inode cache.  That object is THE directory only
+    if it is fetched while the directory's lock is held: a slot fetched before the lock is granted
+    may have been evicted by the time the request runs, and the request then lists (and appends to)
+    an orphaned copy — a name twice, or a name missing.  The call order of `Acquire` / `LookupSlot` /
+    `Release` in package fstxn is regenerated on every run (`Gen.Skeleton.slotUses`; the model of
+    locks and slots together is M8d, `Props/C03`). -/
+theorem the_directory_listed_is_the_locked_one :
+    ∀ f ∈ GoNfsd.Gen.Skeleton.slotUses, GoNfsd.Model.Skeleton.slotCheck f = true := by decide
+
+example : GoNfsd.Model.Skeleton.slotCheck ("LockInode", [(0, "LookupSlot"), (0, "Acquire")]) = false := by decide
 
 end GoNfsd.Props.C13
